@@ -87,9 +87,9 @@ Section ExecPlain.
       assert (existsb (fun l => mem_str [c] (ls_active (snd l))) (t_langs T) = true).
       { apply existsb_exists. exists (k, s). split; [exact Hin | exact Em]. }
       congruence.
-    - destruct Hk as (c & r & Et & Hsp). apply mem_str_in in Em.
+    - destruct Hk as (c & r & Et & Hsp & _). apply mem_str_in in Em.
       destruct (Hact (k, s) (txt t) Hin Em) as (x & r' & E & Hx). congruence.
-    - destruct Hk as (c & r & Et & Hsp). apply mem_str_in in Em.
+    - destruct Hk as (c & r & Et & Hsp & _). apply mem_str_in in Em.
       destruct (Hact (k, s) (txt t) Hin Em) as (x & r' & E & Hx). congruence.
   Qed.
 
@@ -113,9 +113,9 @@ Section ExecPlain.
       + apply (Hr eq_refl). reflexivity.
       + specialize (Hs _ S123). discriminate.
       + specialize (Hs _ S125). discriminate.
-    - destruct Hk as (c & r' & Et & Hc). rewrite Et. simpl.
+    - destruct Hk as (c & r' & Et & Hc & _). rewrite Et. simpl.
       destruct (N.eqb c a) eqn:E; [|reflexivity]. apply N.eqb_eq in E. congruence.
-    - destruct Hk as (c & r' & Et & Hc). rewrite Et. simpl.
+    - destruct Hk as (c & r' & Et & Hc & _). rewrite Et. simpl.
       destruct (N.eqb c a) eqn:E; [|reflexivity]. apply N.eqb_eq in E. congruence.
   Qed.
 
